@@ -44,23 +44,23 @@ class LogCapture(logging.Handler):
         if not self.enabled:
             return
         if record.levelno >= logging.WARNING:
-            self.records.append(record)
+            # only the bucket is kept: a record with exc_info holds the traceback, the traceback holds the agent's
+            # frames, and those hold the paused application frame - keeping it would keep host objects alive (and
+            # delay their finalisers) on account of the harness
+            if record.exc_info and record.exc_info[1] is not None:
+                self.records.append(exc_bucket(record.exc_info[1]))
+            else:
+                try:
+                    self.records.append('log:' + str(record.msg)[:60])
+                except Exception:
+                    self.records.append('log:?')
 
     def clear(self):
         self.records = []
 
     def errors(self):
-        """Bucket error records by (exception type, innermost deep function)."""
-        out = []
-        for r in self.records:
-            if r.exc_info and r.exc_info[1] is not None:
-                out.append(exc_bucket(r.exc_info[1]))
-            else:
-                try:
-                    out.append('log:' + str(r.msg)[:60])
-                except Exception:
-                    out.append('log:?')
-        return out
+        """Error records bucketed by (exception type, innermost deep function)."""
+        return list(self.records)
 
 
 def exc_bucket(exc):
